@@ -22,6 +22,11 @@ type c10Sink struct {
 	ID   int  `json:"id"`
 	WErr bool `json:"werr"`
 	SErr bool `json:"serr"`
+	// WN: the count a FAILING write reports (0 none, 1 half, 2 all but one byte) — failing sinks of one multi-syncer then differ
+	// in their counts; Under: a SUCCESSFUL write reports one byte less than it was given, without an error. Neither is an
+	// error or changes which failures must be reported (the model ignores both).
+	WN    int  `json:"wn,omitempty"`
+	Under bool `json:"under,omitempty"`
 }
 
 type c10Core struct {
@@ -61,7 +66,7 @@ func c10GenCore(r *Rand, d int, nextID *int) c10Core {
 		n := 1 + r.Intn(3)
 		c := c10Core{T: "io", Enabled: r.Chance(3, 4), Sinks: []c10Sink{}, CS: []c10Core{}}
 		for i := 0; i < n; i++ {
-			c.Sinks = append(c.Sinks, c10Sink{ID: *nextID, WErr: r.Chance(1, 3), SErr: r.Chance(1, 4)})
+			c.Sinks = append(c.Sinks, c10Sink{ID: *nextID, WErr: r.Chance(1, 3), SErr: r.Chance(1, 4), WN: Pick(r, []int{0, 0, 1, 2}), Under: r.Chance(1, 5)})
 			*nextID++
 		}
 		return c
@@ -89,6 +94,17 @@ func c10Gen(r *Rand, tier string, emit func(op any)) {
 				t, m := tee, multi
 				emit(c10Op{K: "deliver", Core: &t, Level: lvl, Elems: []encOutcome{}})
 				emit(c10Op{K: "deliver", Core: &m, Level: lvl, Elems: []encOutcome{}})
+				if k >= 2 && lvl == 0 {
+					// the same multi-syncer with failing sinks that report DIFFERENT counts, and working sinks that under-report
+					for rot := 0; rot < 3; rot++ {
+						m2 := c10Core{T: "io", Enabled: true, Sinks: []c10Sink{}, CS: []c10Core{}}
+						for i, s := range multi.Sinks {
+							s.WN, s.Under = (i+rot)%3, (i+rot)%2 == 1
+							m2.Sinks = append(m2.Sinks, s)
+						}
+						emit(c10Op{K: "deliver", Core: &m2, Level: lvl, Elems: []encOutcome{}})
+					}
+				}
 			}
 		}
 	}
@@ -121,6 +137,8 @@ type failSink struct {
 	id     int
 	werr   bool
 	serr   bool
+	wn     int
+	under  bool
 	writes [][]byte
 	syncs  int
 }
@@ -128,7 +146,17 @@ type failSink struct {
 func (s *failSink) Write(p []byte) (int, error) {
 	s.writes = append(s.writes, append([]byte(nil), p...))
 	if s.werr {
-		return 0, fmt.Errorf("sink-%d-write-failed", s.id)
+		n := 0
+		switch s.wn {
+		case 1:
+			n = len(p) / 2
+		case 2:
+			n = len(p) - 1
+		}
+		return n, fmt.Errorf("sink-%d-write-failed", s.id)
+	}
+	if s.under && len(p) > 0 {
+		return len(p) - 1, nil
 	}
 	return len(p), nil
 }
@@ -157,7 +185,7 @@ func c10Build(c *c10Core, sinks *[]*failSink) zapcore.Core {
 	case "io":
 		var ws []zapcore.WriteSyncer
 		for _, s := range c.Sinks {
-			fs := &failSink{id: s.ID, werr: s.WErr, serr: s.SErr}
+			fs := &failSink{id: s.ID, werr: s.WErr, serr: s.SErr, wn: s.WN, under: s.Under}
 			*sinks = append(*sinks, fs)
 			ws = append(ws, fs)
 		}
